@@ -517,7 +517,8 @@ def rule_constructors(ctx, crate, rule="R-WRAP-CONSTRUCT"):
         sli = b.slice(it, at=i)
         slp = b.slice(pr, at=i)
         ok_it = bool(sli.params()) and not [x for x in sli.calls if not x.matches(r".*::into_iter", *VALUE_PRESERVING)]
-        ok_pr = bool(slp.params()) and not [x for x in slp.calls if not x.matches(r"std::clone::Clone::clone", r".*::clone", *VALUE_PRESERVING)]
+        # (the adaptor's own builder methods rebuild the wrapper around the caller's bar after a ProgressBar::with_* call on it)
+        ok_pr = bool(slp.params()) and not [x for x in slp.calls if not x.matches(r"std::clone::Clone::clone", r".*::clone", r"progress_bar::ProgressBar::with_\w+", *VALUE_PRESERVING)]
         ctx.check(ok_it and ok_pr, rule, "construct:%s" % K.meth(b.name), b.name, "%s:%d" % (b.file, s.get("line", 0)),
                   "ProgressBarIter { it: the wrapped object, progress: the caller's bar }", "ProgressBarIter is built from something other than the wrapped object and the caller's bar", cfg)
     ctx.floor(rule, n, 3, cfg, "ProgressBarIter constructions")
